@@ -601,8 +601,98 @@ def checkC10 (c : Case) (t : Transcript) : Option String := Id.run do
         | none => pure ()
   return none
 
+/-- C01 (thread-local half, checked on every implementation transcript): the rank discipline.
+Whenever the caller blocks on a lock, every lock it holds either belongs to the same unit
+(owned group) and comes earlier in it, or — in a sorting collection — to a unit with a smaller
+address; in particular a retrying acquisition blocks only empty-handed (across units), and a
+thread never waits for a lock it holds itself. By `C01_deadlock_free` this discipline, kept by
+every thread, excludes deadlock under every interleaving. -/
+def checkC01 (c : Case) (t : Transcript) : Option String := Id.run do
+  if t.terminal == "selfdeadlock" then return some "the thread waits for a lock it holds itself"
+  let C : Ctx := { W := c.world, colls := c.colls }
+  let rec isSortTop : Shape → Bool
+    | .boxed _ | .refc _ => true
+    | .poisonable _ s => isSortTop s
+    | _ => false
+  let mut st : HSt := {}
+  let segs := segments t.evs
+  let mut i := 0
+  for s in c.prog do
+    let seg := segs.getD i []
+    i := i + 1
+    let info? : Option (Bool × List Ptr) := match s with
+      | .ses ses =>
+        let S := C.shape ses.coll
+        some (isSortTop S, match S with
+          | .mutex _ | .rwlock _ => getPtrs c.world S
+          | _ => (match S with
+              | .poisonable _ (.mutex x) => getPtrs c.world (.mutex x)
+              | .poisonable _ (.rwlock x) => getPtrs c.world (.rwlock x)
+              | _ =>
+                -- the units the session's own RawLock impl iterates over
+                let rec inner : Shape → List Ptr
+                  | .poisonable _ s' => inner s'
+                  | .boxed s' => sortPtrs (getPtrs c.world s')
+                  | .refc s' => sortPtrs (getPtrs c.world s')
+                  | .retry s' => getPtrs c.world s'
+                  | .owned _ s' => [{ addr := 0, lock := default, fp := fun m => (getPtrs c.world s').flatMap (·.fp m) }]
+                  | s' => getPtrs c.world s'
+                inner S))
+      | _ => none
+    for e in seg do
+      match info?, e with
+      | some (sorting, ptrs), .raw k x r _ =>
+        if kindBlocking k && r != .no then
+          let unitIdx (y : LockId) : Nat := (ptrs.findIdx? fun p => p.leaves.contains y).getD 1000
+          let pos (y : LockId) : Nat :=
+            ((ptrs.find? fun p => p.leaves.contains y).map fun p => (p.leaves.findIdx? (· == y)).getD 0).getD 0
+          let addrOf (y : LockId) : Nat := ((ptrs.find? fun p => p.leaves.contains y).map (·.addr)).getD 0
+          let bad := st.held.filter fun (y, _) =>
+            !((unitIdx y == unitIdx x && pos y < pos x) || (sorting && unitIdx y != unitIdx x && addrOf y < addrOf x))
+          if !bad.isEmpty then
+            return some s!"blocked on lock {x} while holding {repr bad}: not below it in the acquisition order"
+      | _, _ => pure ()
+      match holdStep st e with
+      | .ok s' => st := s'
+      | .error msg => return some msg
+  return none
+
+/-- C02 (sequential half): data accesses happen only under a suitable hold (audit), every read
+observes the value of the most recent write to that same lock (whatever collection, position
+or API it went through), and a scoped closure runs only while all its locks are held. -/
+def checkC02 (c : Case) (t : Transcript) : Option String := Id.run do
+  let C : Ctx := { W := c.world, colls := c.colls }
+  let mut st : HSt := {}
+  let mut vals : List (LockId × Nat) := []
+  let segs := segments t.evs
+  let mut i := 0
+  for s in c.prog do
+    let seg := segs.getD i []
+    i := i + 1
+    for e in seg do
+      match e with
+      | .acc x true v _ => vals := (x, v) :: vals.filter (·.1 != x)
+      | .acc x false v _ =>
+        let want := ((vals.find? (·.1 == x)).map (·.2)).getD 0
+        if v != want then return some s!"read of lock {x} saw {v}, the last exclusive section left {want}"
+      | .mark n =>
+        if n == mkBody then
+          match s with
+          | .ses ses =>
+            let want := declHolds (C.shape ses.coll) ses.mode
+            if !sameMultiset st.held want then
+              return some s!"closure invoked holding {repr st.held}, not all of {repr want}"
+          | _ => pure ()
+      | _ => pure ()
+      match holdStep st e with
+      | .ok s' => st := s'
+      | .error msg => return some msg
+  return none
+
 def checkProp (prop : String) (c : Case) (t : Transcript) : Option String :=
   match prop with
+  | "C01" => checkC01 c t
+  | "C02" => checkC02 c t
   | "C03" | "C05" => checkHold c t
   | "C04" => (checkC04 c t).orElse fun _ => checkHold c t
   | "C06" => checkC06 c t
